@@ -85,6 +85,7 @@ func (c *appendCombineChecker) matchAppend(stmt ast.Stmt, slice ast.Expr) *ast.C
 			qualifiedName(call.Fun) == "append" &&
 			isBuiltinFunc(c.ctx, call.Fun) &&
 			call.Ellipsis == token.NoPos &&
+			len(call.Args) != 0 && // Ill-typed code: append().
 			astequal.Expr(assign.Lhs[0], call.Args[0])
 		if !cond {
 			return nil
